@@ -126,6 +126,11 @@ class _Canon(ast.NodeTransformer):
             n.attr = "value"
         return n
 
+    def visit_NamedExpr(self, n):
+        # (x := e) reads as e (the binding is recorded separately by the path summariser)
+        self.generic_visit(n)
+        return n.value
+
     def visit_Subscript(self, n):
         self.generic_visit(n)
         # (a, b)[0] -> a
@@ -137,8 +142,9 @@ class _Canon(ast.NodeTransformer):
 
 
 def _rename_comprehension_vars(tree):
-    """bound variables of comprehensions / generator expressions / lambdas get position-based names"""
-    k = [0]
+    """bound variables of comprehensions / generator expressions / lambdas get position-based names; numbering
+    restarts at every outermost comprehension, so the names do not depend on what else the function contains"""
+    COMP = (ast.ListComp, ast.SetComp, ast.GeneratorExp, ast.DictComp, ast.Lambda)
 
     def rename(node, mapping):
         for n in ast.walk(node):
@@ -147,22 +153,34 @@ def _rename_comprehension_vars(tree):
             elif isinstance(n, ast.arg) and n.arg in mapping:
                 n.arg = mapping[n.arg]
 
-    for node in ast.walk(tree):
-        if isinstance(node, (ast.ListComp, ast.SetComp, ast.GeneratorExp, ast.DictComp)):
-            mapping = {}
+    def process(node, k):
+        mapping = {}
+        if isinstance(node, ast.Lambda):
+            for a in node.args.args:
+                mapping[a.arg] = f"_c{k}"
+                k += 1
+        else:
             for g in node.generators:
                 for t in ast.walk(g.target):
-                    if isinstance(t, ast.Name) and not t.id.startswith("_c") and t.id not in mapping:
-                        mapping[t.id] = f"_c{k[0]}"
-                        k[0] += 1
-            rename(node, mapping)
-        elif isinstance(node, ast.Lambda):
-            mapping = {}
-            for a in node.args.args:
-                if not a.arg.startswith("_c"):
-                    mapping[a.arg] = f"_c{k[0]}"
-                    k[0] += 1
-            rename(node, mapping)
+                    if isinstance(t, ast.Name) and t.id not in mapping:
+                        mapping[t.id] = f"_c{k}"
+                        k += 1
+        mapping = {a: b for a, b in mapping.items() if a != b}
+        # two-step rename avoids clashes when the code already uses _c names
+        tmp = {a: f"\0{b}" for a, b in mapping.items()}
+        rename(node, tmp)
+        rename(node, {v: v[1:] for v in tmp.values()})
+        for ch in ast.iter_child_nodes(node):
+            descend(ch, k)
+
+    def descend(node, k):
+        if isinstance(node, COMP):
+            process(node, k)
+        else:
+            for ch in ast.iter_child_nodes(node):
+                descend(ch, k)
+
+    descend(tree, 0)
     return tree
 
 
@@ -393,18 +411,69 @@ class PathSummary:
     def has(self, text, truth=True):
         return (text, truth) in self.facts
 
+    @property
+    def feasible(self):
+        """False when the path's conditions contradict each other (same atomic condition both true and false)"""
+        return not any((t, not tr) in self.facts for t, tr in self.facts)
+
     def __repr__(self):
         return f"<{sorted(self.facts)} -> {self.kind} {self.value}>"
 
 
-def summarise(fn, body=None, keep=(), limit=4000):
+_INLINE_CACHE = {}
+
+
+def _inlinable(mod, name):
+    """a module-level helper that is one straight path of pure bindings ending in `return <expr>` (no effects, no
+    branches): (parameter names, returned expression node) - else None"""
+    key = (id(mod), name)
+    if key in _INLINE_CACHE:
+        return _INLINE_CACHE[key]
+    _INLINE_CACHE[key] = None
+    fns = mod.funcs.get(name)
+    if not fns or len(fns) != 1 or fns[0].node.decorator_list:
+        return None
+    f = fns[0]
+    if f.vararg or f.kwarg or len(f.body) > 6:
+        return None
+    try:
+        sums = summarise(f, inline=False)
+    except Exception:
+        return None
+    if len(sums) != 1 or sums[0].kind != "return" or any(e for e in sums[0].effects if "(" not in e):
+        return None
+    try:
+        expr = ast.parse(sums[0].value).body[0].value
+    except SyntaxError:
+        return None
+    _INLINE_CACHE[key] = (f.params, expr)
+    return _INLINE_CACHE[key]
+
+
+class _Inline(ast.NodeTransformer):
+    def __init__(self, mod, self_name):
+        self.mod, self.self_name = mod, self_name
+
+    def visit_Call(self, n):
+        self.generic_visit(n)
+        if isinstance(n.func, ast.Name) and n.func.id != self.self_name and n.func.id in self.mod.funcs and not n.keywords and not any(isinstance(a, ast.Starred) for a in n.args):
+            inl = _inlinable(self.mod, n.func.id)
+            if inl and len(inl[0]) == len(n.args):
+                env = dict(zip(inl[0], n.args))
+                return _Subst(env, {}).visit(copy.deepcopy(inl[1]))
+        return n
+
+
+def summarise(fn, body=None, keep=(), limit=4000, inline=True):
     """one PathSummary per acyclic path of `body` (default: the function body).  Along a path every local that is
     bound to a pure expression is substituted into later conditions / effects / the returned value (path-sensitive:
     the binding that was made on *this* path)."""
     from .flow import decompose, enum_paths
 
     stmts = atomise(split_ifexp(list(body if body is not None else fn.body)))
-    params = set(fn.params) | ({fn.vararg} if fn.vararg else set()) | ({fn.kwarg} if fn.kwarg else set()) | set(keep)
+    real_params = set(fn.params) | ({fn.vararg} if fn.vararg else set()) | ({fn.kwarg} if fn.kwarg else set())
+    real_params -= set(keep)
+    params = real_params | set(keep)
     out = []
     outer = {}
     if body is not None:
@@ -412,6 +481,7 @@ def summarise(fn, body=None, keep=(), limit=4000):
         outer = {k: canon_node(v) for k, v in fn_pure_env(fn).items() if k not in bound_here and k not in params}
     for p in enum_paths(stmts, limit=limit):
         env = dict(outer)
+        dirty = set()
         impure = set()
         facts = set()
         effects = []
@@ -423,6 +493,8 @@ def summarise(fn, body=None, keep=(), limit=4000):
                 if norm(new) == norm(cur):
                     break
                 cur = new
+            if inline:
+                cur = _Inline(fn.mod, fn.name).visit(cur)
             return canon_node(cur)
 
         kind, value = "fall", None
@@ -431,11 +503,41 @@ def summarise(fn, body=None, keep=(), limit=4000):
                 tmp = []
                 decompose(ev[1], ev[2], tmp)
                 for _, tr, node in tmp:
+                    for w_ in ast.walk(node):
+                        if isinstance(w_, ast.NamedExpr) and isinstance(w_.target, ast.Name) and is_pure(w_.value):
+                            env[w_.target.id] = sub(w_.value)
                     n2 = sub(node)
                     t, tr2 = canon_fact(n2, tr)
                     facts.add((t, tr2))
             elif ev[0] == "stmt":
                 st = ev[1]
+                if isinstance(st, ast.Pass):
+                    continue
+                if isinstance(st, ast.Assign) and len(st.targets) == 1 and isinstance(st.targets[0], ast.Name) and any(isinstance(x, ast.Name) and x.id == st.targets[0].id for x in ast.walk(sub(st.value))):
+                    nm = st.targets[0].id
+                    if nm in real_params and body is None and nm not in dirty and nm not in env:
+                        # a parameter is given a new value computed from its original value: the name inside the
+                        # new value denotes the argument as passed in (protected from further substitution)
+                        v = sub(st.value)
+                        for x in ast.walk(v):
+                            if isinstance(x, ast.Name) and x.id == nm:
+                                x.id = "__orig_" + nm
+                        if not is_pure(st.value):
+                            effects.append(norm(v))
+                        env[nm] = v
+                        continue
+                    # the new value mentions the name itself and its previous value is unknown here: keep as a statement
+                    effects.append(norm(sub(st)))
+                    env.pop(nm, None)
+                    dirty.add(nm)
+                    continue
+                if isinstance(st, ast.Assign) and len(st.targets) == 1 and isinstance(st.targets[0], ast.Name) and st.targets[0].id in real_params and body is None and st.targets[0].id not in dirty:
+                    # a parameter name re-bound to something that does not depend on it
+                    v = sub(st.value)
+                    if not is_pure(st.value):
+                        effects.append(norm(v))
+                    env[st.targets[0].id] = v
+                    continue
                 if isinstance(st, ast.Assign) and len(st.targets) == 1 and isinstance(st.targets[0], ast.Name) and st.targets[0].id not in params and is_pure(st.value):
                     env[st.targets[0].id] = sub(st.value)
                     continue
@@ -451,9 +553,6 @@ def summarise(fn, body=None, keep=(), limit=4000):
                     # a local naming the result of a call: substituted into later uses, the call itself is an effect
                     v = sub(st.value)
                     effects.append(norm(v))
-                    for k in list(impure):
-                        env.pop(k, None)
-                    impure.clear()
                     env[st.targets[0].id] = v
                     impure.add(st.targets[0].id)
                     continue
@@ -474,5 +573,11 @@ def summarise(fn, body=None, keep=(), limit=4000):
             elif ev[0] == "raise":
                 kind = "raise"
                 value = norm(sub(ev[1].exc)) if ev[1].exc is not None else "raise"
-        out.append(PathSummary(facts, kind, value, effects, p))
+        unmark = lambda t: t.replace("__orig_", "") if isinstance(t, str) else t
+        facts = {(unmark(t), tr) for t, tr in facts}
+        value = unmark(value)
+        effects = [unmark(e) for e in effects]
+        ps = PathSummary(facts, kind, value, effects, p)
+        if ps.feasible:
+            out.append(ps)
     return out
